@@ -144,7 +144,7 @@ def model_of(sp, exact=True):
     return V(t, shape)
 
 
-VARIANTS = ("canon", "T", "F", "slice", "zeroterm", "unsorted", "bigalloc", "unusedname")
+VARIANTS = ("canon", "T", "F", "slice", "zeroterm", "unsorted", "bigalloc", "unusedname", "rev", "readonly")
 
 
 def build(sp):
@@ -192,12 +192,22 @@ def build(sp):
             raw[key] = 77
             raw[key][1::2] = c
         out = numpy.ndarray.__getitem__(p, slice(1, None, 2))
+    elif variant == "rev" and len(shape) >= 1:
+        # negative strides: stored back to front along the first and the last axis, handed over as [::-1, ..., ::-1]
+        p = numpoly.ndpoly(exponents=exps, shape=shape, names=names, dtype=dtype, **kw)
+        raw = raw_view(p)
+        index = (slice(None, None, -1),) + (slice(None),) * (len(shape) - 2) + ((slice(None, None, -1),) if len(shape) >= 2 else ())
+        for key, (_, c) in zip(p.keys, terms):
+            raw[key] = c[index]
+        out = numpy.ndarray.__getitem__(p, index)
     else:
         p = numpoly.ndpoly(exponents=exps, shape=shape, names=names, dtype=dtype, **kw)
         raw = raw_view(p)
         for key, (_, c) in zip(p.keys, terms):
             raw[key] = c
         out = p
+        if variant == "readonly":
+            numpy.ndarray.setflags(out, write=False)
     assert type(out) is numpoly.ndpoly and tuple(out.shape) == shape, (type(out), out.shape, shape)
     return out
 
